@@ -26,6 +26,9 @@ type Hidden struct {
 	Probes    int
 	Faulted   []int // probe indexes at which a fault was injected
 	OnProbe   func(kind string, id int64, n int)
+	// OnHook is what F.Hook(id) does (the harness' stand-in for a fact method with effects outside the facts,
+	// e.g. one that adds another fact to the running data context)
+	OnHook func(id int64)
 }
 
 type Fact struct {
@@ -96,6 +99,13 @@ func (f *Fact) GetSub() *Sub { return f.P }
 
 // TagIs reads hidden receiver state (S): only a Forget/Changed naming the CALL invalidates its remembered result.
 func (f *Fact) TagIs(s string) bool { return f.S == s }
+
+// Hook calls the harness (no effect on any fact).
+func (f *Fact) Hook(id int64) {
+	if h := f.H(); h.OnHook != nil {
+		h.OnHook(id)
+	}
+}
 
 // Boom always panics (a user method that fails whenever it is called).
 func (f *Fact) Boom() bool { panic("boom") }
